@@ -385,7 +385,13 @@ func (e *env) wait(cond func() bool, what string, actions bool) int {
 			if st := xmltree.ParseStream(e.input(), true); st.Err != nil || st.Trailing {
 				form = "malformed-input"
 			}
-			e.c.Violate(stall.Key(p)+":"+e.stallTag()+":"+form, "%s goroutine parked for good in %s (%s) while waiting for %s; every harness actor idle\n%s", who, p.Func, p.State, what, core.TrimStack(p.Stack))
+			key := stall.Key(p)
+			if p.Func == "handleInputStream" {
+				// Serve waits for a response to be closed: the site says nothing, the
+				// owner of the response and the state of the input do
+				key += ":" + e.stallTag() + ":" + form
+			}
+			e.c.Violate(key, "%s goroutine parked for good in %s (%s) while waiting for %s; every harness actor idle\n%s", who, p.Func, p.State, what, core.TrimStack(p.Stack))
 			if os.Getenv("C09_DEBUG") != "" {
 				buf := make([]byte, 1<<20)
 				fmt.Fprintf(os.Stderr, "C09 stall dump:\n%s\n", buf[:runtime.Stack(buf, true)])
